@@ -140,7 +140,7 @@ def oracle(ctx, extra):
             doc = extra[i]
         elif p in HOSTS and r.random() < 0.5:
             # the plugin replaces the handler of a core construct: documents full of that construct (without the trigger)
-            doc = gen_docs.tab_doc(r, HOSTS[p])
+            doc = gen_docs.tab_doc(r, HOSTS[p]) if r.random() < 0.6 else gen_docs.edge_doc(r)
         elif k < (0.6 if focus else 0.25):
             doc = gen_docs.interaction_doc(r)
         elif k < 0.75:
@@ -160,7 +160,7 @@ def oracle(ctx, extra):
     return {"evaluations": n, "distinct_nontrivial": len(nontriv), "failures": fails,
             "rule": "for each of the 17 plugin/directive configurations in turn: a generated document (25% interrupt/lazy-continuation interaction fragments, 50% structured with "
                     "all plugin syntaxes, 10% mutated, 8% tabs and mixed indentation after container markers, 7% noise) from which one specified trigger character per rule of "
-                    "the plugin has been deleted (for a plugin that takes over the handler of a core construct - spoiler: block quotes, task_lists: list items, fenced_directive: fenced code - half of the documents are made of that construct with tabs and mixed indentation); HTML with plugins=others vs others+[plugin], others = 0-5 random other "
+                    "the plugin has been deleted (for a plugin that takes over the handler of a core construct - spoiler: block quotes, task_lists: list items, fenced_directive: fenced code - half of the documents are made of that construct with tabs and mixed indentation, or have wide white space at the borders of block text); HTML with plugins=others vs others+[plugin], others = 0-5 random other "
                     "plugins/directives, hard_wrap and escape random; distinct by (plugin, document)",
             "samples": [json.dumps(_strip(gen_docs.doc(ctx.rng('s'), plugins=gen_docs.ALL_PLUGINS), "|"))]}
 
